@@ -80,9 +80,8 @@ theorem upSearch_finished {d : Design} (hwf : WF d) (l : List Nat) :
 theorem allHrefs_finished {d : Design} (hwf : WF d) (insts : List Nat) : (allHrefs d insts).2 = true := by
   unfold allHrefs
   split
-  · split
-    · exact upSearch_finished hwf insts
-    · rfl
+  · simp only
+    split <;> exact upSearch_finished hwf insts
   · rfl
 
 theorem isUnique_finished {d : Design} (hwf : WF d) (h : HRef) : (isUnique d h).2 = true := by
